@@ -198,6 +198,35 @@ vf::Result sub_O7(uint16_t w, uint16_t x, uint32_t pc, uint64_t seed) {
     return vf::Result::pass();
 }
 
+// O8: a repeated one-word instruction that is the last instruction of an active block repeat (passes left): stepping back for the
+// repeat and looping back for the block must not combine into a fetch of the operand word of the two-word `bkrep` in front of the block
+vf::Result sub_O8(uint16_t w, uint16_t x, uint32_t pc, uint64_t seed) {
+    const optable::Info& i = optable::info(w);
+    if (i.entry < 0 || i.expanded || kControlTransfer.count(i.name) || i.name.find("rep") != std::string::npos || i.name == "break_")
+        return vf::Result::pass();
+    icase::ICase c = benign(w, x, pc, seed, seed != 0);
+    const uint32_t start = pc >= 8 ? pc - 5 : pc; // the block [start, pc]; the bkrep instruction occupies start - 2, start - 1
+    c.st[flat::F_rep] = 1;
+    c.st[flat::F_repc] = 1 + (seed >> 8) % 3;
+    c.st[flat::F_lp] = 1;
+    c.st[flat::F_bcn] = 1;
+    c.st[flat::F_bk_start + 0] = start;
+    c.st[flat::F_bk_end + 0] = pc;
+    c.st[flat::F_bk_lc + 0] = 1 + (seed >> 12) % 5;
+    c.cycles = 1;
+    icase::IResult r = sut().exec(c);
+    if (r.outcome != 0 || r.oob)
+        return vf::Result::pass();
+    if (r.after[flat::F_lp] != 1 || r.after[flat::F_bcn] != 1)
+        return vf::Result::pass(); // the instruction itself changed the loop state
+    vf::klass("O8: repeated instruction at the end of an active block");
+    uint32_t pc1 = (uint32_t)r.after[flat::F_pc];
+    if (pc1 == start - 1 || pc1 == start - 2)
+        return vf::Result::fail("C02:O8:operand-executed:rep-at-block-end", "one-word " + i.form + " at " + vf::hex(pc) + " repeated at the end of the block [" + vf::hex(start) + ", " +
+                                                                                vf::hex(pc) + "]: the next fetch is at " + vf::hex(pc1) + ", inside the two-word bkrep in front of the block");
+    return vf::Result::pass();
+}
+
 // bit b of word w is declared unused: text and execution must not depend on it
 vf::Result sub_O4_exec(uint16_t w, uint16_t x, uint32_t pc, uint64_t seed, int bit) {
     uint16_t w2 = w ^ (uint16_t)(1u << bit);
@@ -350,6 +379,8 @@ vf::Result run_body(const std::string& body) {
         return sub_O6(w, x, pc, seed);
     if (t[0] == "O7")
         return sub_O7(w, x, pc, seed);
+    if (t[0] == "O8")
+        return sub_O8(w, x, pc, seed);
     return vf::Result::pass();
 }
 
@@ -397,6 +428,8 @@ int main(int argc, char** argv) {
             c.current = [&] { return body_of("O3", w, x, pc, seed, 0); };
             vf::enum_result(prop, sub_O3(w, x, pc, seed), [&] { return body_of("O3", w, x, pc, seed, 0); }, [&] { return sub_O3(w, x, pc, seed); });
             vf::enum_result(prop, sub_O5(w, x), [&] { return body_of("O5", w, x, 0, 0, 0); }, [&] { return sub_O5(w, x); });
+            if (k == 2 && !info.expanded && (wi % 8) == (uint32_t)(c.seed % 8))
+                vf::enum_result(prop, sub_O8(w, x, pc, seed), [&] { return body_of("O8", w, x, pc, seed, 0); }, [&] { return sub_O8(w, x, pc, seed); });
             if (k >= 1 && k <= 2 && info.expanded)
                 vf::enum_result(prop, sub_O7(w, x, pc, seed), [&] { return body_of("O7", w, x, pc, seed, 0); }, [&] { return sub_O7(w, x, pc, seed); });
             if (k == 1 && info.expanded) {
